@@ -5,9 +5,12 @@ From PV Require Import M_Profile M_Fetch S_Fetch.
 Open Scope string_scope.
 Open Scope Z_scope.
 
+(* values are read in the finest time unit (ns): a source / an observed profile whose sample type is in
+   unit code u (field 5 of a source, field 4 of an observed profile; absent = 0) has its values
+   multiplied by unit_factor u.  The toy merge then adds physical weights, whatever the units. *)
 Definition tprof_of (t : term) : tprof :=
   {| tp_type := gs (gn t 1); tp_comments := gss (gn t 3);
-     tp_samples := map (fun e => (gs (gn e 0), gz (gn e 1))) (gl (gn t 2)) |}.
+     tp_samples := map (fun e => (gs (gn e 0), gz (gn e 1) * unit_factor (gz (gn t 5)))) (gl (gn t 2)) |}.
 
 Definition of_tprof (p : tprof) : term :=
   TL [TS (tp_type p); TL (map (fun kv => TL [TS (fst kv); TZ (snd kv)]) (tp_samples p));
@@ -18,7 +21,7 @@ Definition otprof_of (t : term) : option tprof :=
   match gl t with
   | [] => None
   | _ => Some {| tp_type := gs (gn t 0); tp_comments := gss (gn t 3);
-                 tp_samples := map (fun e => (gs (gn e 0), gz (gn e 1))) (gl (gn t 1)) |}
+                 tp_samples := map (fun e => (gs (gn e 0), gz (gn e 1) * unit_factor (gz (gn t 4)))) (gl (gn t 1)) |}
   end.
 
 (* compact input encoding: TL [TZ kind] = the "plain" source of its position (harness c16Plain):
@@ -231,6 +234,35 @@ Definition spec_C16 (i o : term) : bool :=
   | _ => false   (* panic or malformed observable *)
   end.
 
+(* header of an observed merged profile (unit code, default sample type) against the fetched sources:
+   the finest unit among them, the first non-empty default among them (command-line order) *)
+Definition fetched_hdrs (srcs : list (source tprof)) (terms : list term) : list (Z * string) :=
+  flat_map (fun st => match s_res (fst st) with
+                      | GOk _ _ => [(gz (gn (snd st) 5), gs (gn (snd st) 6))]
+                      | GErr _ => []
+                      end) (List.combine srcs terms).
+
+Definition hdr_matches (hs : list (Z * string)) (obs : term) : bool :=
+  match gl obs with
+  | [] => true
+  | _ => (gz (gn obs 4) =? common_unit (map fst hs)) && String.eqb (gs (gn obs 5)) (first_nonempty (map snd hs))
+  end.
+
+Definition hdr_C16 (i o : term) : bool :=
+  if is_pprof_op i then true else
+  let hs := fetched_hdrs (sources_of (conn_alone i) 0 0 (gl (gn i 0))) (gl (gn i 0)) in
+  let hb := fetched_hdrs (sources_of (conn_alone i) 1 0 (gl (gn i 1))) (gl (gn i 1)) in
+  match o with
+  | TL [TS st; ps; pb; _; _; _; _; _] =>
+      if negb (String.eqb st "ok") then true
+      else if is_fetch_op i then hdr_matches (hs ++ hb) ps
+      else hdr_matches hs ps && hdr_matches hb pb
+  | _ => true
+  end.
+
 Definition cls_C16 (i : term) : list Z := [].
 
-Definition judge_C16 := judge_all run_C16 eqv_C16 spec_C16 cls_C16 0%Z.
+Definition eqv_C16h (i m o : term) : bool := eqv_C16 i m o && hdr_C16 i o.
+Definition spec_C16h (i o : term) : bool := spec_C16 i o && hdr_C16 i o.
+
+Definition judge_C16 := judge_all run_C16 eqv_C16h spec_C16h cls_C16 0%Z.
